@@ -74,10 +74,11 @@ def finish(rep, pid, extra_cov=None, level_note=None):
         rdir = os.path.join(rdir_base, short)
         try:
             meta = replay.make_replay(pid, t, f0, rdir)
-            res, out = replay.run_replay(rdir) if ARCHS[fn.aid][3] else (None, "architecture not executable on this host")
+            res, out = replay.run_replay(rdir) if (fn.aid is None or ARCHS[fn.aid][3]) else (None, "architecture not executable on this host")
         except Exception as e:  # replay generation must never turn into a verdict
-            meta, res, out = {"has_input": False}, None, "replay generation failed: %r" % (e,)
-            os.makedirs(rdir, exist_ok=True)
+            import traceback
+            rep.infra.append({"fn": fn.sig.dem, "detail": "replay generation failed for %s: %s" % (f0["property"], traceback.format_exc()[-600:])})
+            continue
         rec = {"property": pid, "obligation": f0["property"], "description": f0["description"], "function": fn.sig.dem,
                "source": "%s:%s" % (t["file"], t["line"]), "mode": t["mode"], "backend": t["backend"], "replay": meta, "native_result": res,
                "native_output": out[-3000:] if isinstance(out, str) else None,
@@ -104,7 +105,9 @@ def finish(rep, pid, extra_cov=None, level_note=None):
         with open(path, "w") as fh:
             json.dump(rec, fh, indent=1)
         if kf is not None and verdict in ("reproduced", "no_input", "unconfirmed"):
-            known_lines.append("KNOWN-FINDING: property=%s %s [%s]" % (pid, kf["what"], fn.sig.qual))
+            line = "KNOWN-FINDING: property=%s %s" % (pid, kf["what"])
+            if line not in known_lines:
+                known_lines.append(line)
             rep.known.append({"finding": kf["what"], "function": fn.sig.dem})
             continue
         if verdict == "reproduced":
@@ -182,6 +185,21 @@ def run_value_property(pid, tier, seed, only_archs=None, only_ops=None, only_typ
     return finish(rep, pid)
 
 
+C17_OPS = list(entries.SOPS)
+
+
+def run_c17(tier, seed, only_ops=None, only_types=None):
+    ops = only_ops or C17_OPS
+    cases = [(o, t) for o in ops for t in (only_types or ALL_TYPES) if t in entries.SOPS[o][2]]
+    text = "#include <xsimd/xsimd.hpp>\n#include <cstdint>\n" + "".join(entries.scalar_entry_text(*c) for c in cases)
+    roots = [entries.scalar_entry_name(*c) for c in cases]
+    rep = check.run_groups("C17", {"scalar": (text, roots)}, tier, seed, props_filter=lambda fn: table.prop_of(fn) == "C17")
+    rep.notes["operations"] = ops
+    rep.notes["agreement_argument"] = ("each scalar overload is proved against spec_<op>_<T>, the same specification function that is the per-lane "
+                                       "postcondition of the batch kernels (C01/C03/C07); agreement of scalar tail and vector body follows")
+    return finish(rep, "C17")
+
+
 def main(argv):
     ap = argparse.ArgumentParser(prog="verif")
     ap.add_argument("cmd", choices=["check", "replay"])
@@ -201,6 +219,8 @@ def main(argv):
         if a.prop in PROPS:
             return run_value_property(a.prop, a.tier, seed, a.archs.split(",") if a.archs else None, a.ops.split(",") if a.ops else None,
                                       a.types.split(",") if a.types else None)
+        if a.prop == "C17":
+            return run_c17(a.tier, seed, a.ops.split(",") if a.ops else None, a.types.split(",") if a.types else None)
         print("unknown property", a.prop)
         return 2
     except Infra as e:
